@@ -2160,3 +2160,15 @@ package spec
 //@   ensures  [C14] strings-rebuilt @@ result == nil && gobOpPad[gobStream(b)].Alias != nil ==> op.Description == gobOpPadAlias[gobStream(b)].Description && op.Summary == gobOpPadAlias[gobStream(b)].Summary && op.ID == gobOpPadAlias[gobStream(b)].ID && op.Deprecated == gobOpPadAlias[gobStream(b)].Deprecated
 //@   loop 0 invariant 0 <= $i0 && $i0 <= len(raw.Security) && raw.Alias != nil && len(raw.Alias.Security) == $i0 && raw.Alias.Security != nil && fresh(sliceArr(raw.Alias.Security))
 //@   loop 0 invariant raw.Alias.Description == gobOpPadAlias[gobStream(b)].Description && raw.Alias.Summary == gobOpPadAlias[gobStream(b)].Summary && raw.Alias.ID == gobOpPadAlias[gobStream(b)].ID && raw.Alias.Deprecated == gobOpPadAlias[gobStream(b)].Deprecated
+
+//@ func verifLemmaRefableEncodesAsRef
+//@   inline   (Ref).MarshalJSON
+//@   property C13
+//@   ensures  [C13] empty-string-never-fails @@ refStringV(r.Ref) == "" ==> result1 == nil && result3 == nil
+//@   ensures  [C13] same-object @@ result1 == nil && result3 == nil ==> sameObject(jv(result0), jv(result2))
+
+//@ func verifLemmaRefableDecodesAsRef
+//@   inline   (*Ref).UnmarshalJSON, (*Ref).fromMap
+//@   property C13
+//@   ensures  [C13] same-outcome @@ (result1 == nil) == (result3 == nil)
+//@   ensures  [C13] same-reference @@ result1 == nil && result3 == nil ==> refStringV(result0.Ref) == refStringV(result2) && isRootV(result0.Ref) == isRootV(result2)
